@@ -1641,6 +1641,18 @@ int ov_pcm_seek_page(OggVorbis_File *vf,ogg_int64_t pos){
          first PCM granule position fencepost. */
 
       if(got_page &&
+         begin == vf->dataoffsets[link]){
+        /* 'og' is whatever page the search read last, and it points
+           into sync buffer memory that later seeks and (failed) reads
+           have reset and refilled: fetch the first data page itself
+           rather than submitting a stale or different page */
+        result=_seek_helper(vf,begin);
+        if(result) goto seek_error;
+        result=_get_next_page(vf,&og,-1);
+        if(result<0) goto seek_error;
+      }
+
+      if(got_page &&
          begin == vf->dataoffsets[link] &&
          ogg_page_serialno(&og)==vf->serialnos[link]){
 
